@@ -85,7 +85,9 @@ Proof.
     assert (2 <= Z.of_nat (length vs)) as L2 by (subst vs; cbn [length]; lia).
     destruct (Z.of_nat (length vs) =? 0) eqn:E0; [lia|].
     destruct (Z.of_nat (length vs) =? 1) eqn:E1; [lia|].
-    rewrite Nat2Z.id. rewrite <- (map_length (entry_raw w) vs).
+    rewrite znat_id by (rewrite (flat_map_len_const (enc_int w) (wbytes w)) by (intros x _; apply enc_int_length);
+                        rewrite map_length; destruct w; cbn [wbytes]; lia).
+    rewrite <- (map_length (entry_raw w) vs).
     rewrite <- (app_nil_r (flat_map _ _)). rewrite chunks_flat_map.
     rewrite map_rres_int_entry by exact Fit. cbn [rbind].
     subst vs. destruct v0; reflexivity.
@@ -193,7 +195,9 @@ Proof.
     assert (2 <= Z.of_nat (length vs)) as L2 by (subst vs; cbn [length]; lia).
     destruct (Z.of_nat (length vs) =? 0) eqn:E0; [lia|].
     destruct (Z.of_nat (length vs) =? 1) eqn:E1; [lia|].
-    rewrite Nat2Z.id. rewrite <- (map_length fentry_raw vs).
+    rewrite znat_id by (rewrite (flat_map_len_const enc_f32 4%nat) by (intros x _; apply enc_f32_length);
+                        rewrite map_length; lia).
+    rewrite <- (map_length fentry_raw vs).
     rewrite <- (app_nil_r (flat_map _ _)). rewrite chunks_flat_map_f.
     rewrite map_rres_float_entry by exact Hok. cbn [rbind].
     subst vs. destruct v0; reflexivity.
@@ -353,12 +357,19 @@ Proof.
   unfold dec_fmt_floats, dec_fmt_float_gen. rewrite Rd.
   cbn [Z.eqb Pos.eqb andb negb].
   assert (Z.of_nat (fmax_len vals) =? 0 = false) as E1 by lia. rewrite E1. cbn [andb].
-  rewrite Nat2Z.id. rewrite <- (app_nil_r (flat_map _ _)).
-  rewrite fseries_roundtrip; [reflexivity| |].
-  - intros s Hs vs E. subst s. apply Hok. exact Hs.
-  - intros s Hs. destruct s as [vs|]; cbn [sample_len].
-    + apply (proj2 (fold_fmax_ge vals 0%nat) (Some vs) Hs).
-    + exact Hm1.
+  assert (forall s, In s vals -> (sample_len s <= fmax_len vals)%nat) as Hall.
+  { intros s Hs. destruct s as [vs|]; cbn [sample_len].
+    - apply (proj2 (fold_fmax_ge vals 0%nat) (Some vs) Hs).
+    - exact Hm1. }
+  rewrite znat_id.
+  2:{ rewrite (flat_map_len_const _ (fmax_len vals * 4)%nat).
+      - rewrite map_length. destruct vals as [|s0 vals']; [discriminate Hv|]. cbn [length]. nia.
+      - intros y Hy. apply in_map_iff in Hy. destruct Hy as [s [Ey Hs]]. subst y.
+        rewrite (flat_map_len_const enc_f32 4%nat) by (intros x _; apply enc_f32_length).
+        rewrite fsample_raw_list_length by (apply Hall; exact Hs). reflexivity. }
+  rewrite <- (app_nil_r (flat_map _ _)).
+  rewrite fseries_roundtrip; [reflexivity| |exact Hall].
+  intros s Hs vs E. subst s. apply Hok. exact Hs.
 Qed.
 
 Lemma has_vector_false : forall vals, has_vector vals = false -> enc_fmt_floats vals = ErrInput.
